@@ -36,13 +36,52 @@ Proof. intros ci o k r cs H. cbn. rewrite H. reflexivity. Qed.
 Lemma wsem_ref_leading_and : forall r, wsem_ref (TAnd :: r) = None.
 Proof. reflexivity. Qed.
 
+(* ---- bounds and schema facts for the keyed operations *)
+Lemma find_col_from_bound : forall cols i n k, find_col_from i cols n = Some k -> (i <= k < i + List.length cols)%nat.
+Proof.
+  induction cols as [|c cols IH]; intros i n k H; cbn in H; [discriminate|].
+  destruct (eqfold (cname c) n).
+  - inversion H; subst. cbn. lia.
+  - apply IH in H. cbn. lia.
+Qed.
+Lemma find_col_bound cols n k : find_col cols n = Some k -> (k < List.length cols)%nat.
+Proof. intros H. apply find_col_from_bound in H. lia. Qed.
+Lemma find_exact_from_bound : forall cols i n k, find_exact_from i cols n = Some k -> (i <= k < i + List.length cols)%nat.
+Proof.
+  induction cols as [|c cols IH]; intros i n k H; cbn in H; [discriminate|].
+  destruct (str_eqb (cname c) n).
+  - inversion H; subst. cbn. lia.
+  - apply IH in H. cbn. lia.
+Qed.
+Lemma key_index_bound cols : List.length cols <> O -> (key_index cols < List.length cols)%nat.
+Proof.
+  intros Hne. unfold key_index.
+  destruct (find_exact_from 0 cols (L "id")) eqn:E1; [apply find_exact_from_bound in E1; lia|].
+  destruct (find_exact_from 0 cols (L "name")) eqn:E2; [apply find_exact_from_bound in E2; lia|]. lia.
+Qed.
+Lemma schema_nonempty cols : schema_ok cols = true -> List.length cols <> O.
+Proof. unfold schema_ok. intros H. apply andb_true_iff in H as [H _]. apply negb_true_iff, Nat.eqb_neq in H. exact H. Qed.
+Lemma schema_key cols k : schema_ok cols = true -> (k < List.length cols)%nat ->
+  find_col cols (col_name cols k) = Some k /\ find_col cols (col_sql cols k) = Some k.
+Proof.
+  unfold schema_ok. intros H Hk. apply andb_true_iff in H as [_ H].
+  rewrite forallb_forall in H. specialize (H k). rewrite in_seq in H. specialize (H ltac:(lia)).
+  unfold key_lookup, upd_lookup in H.
+  destruct (find_col cols (col_name cols k)) as [a|]; [|discriminate].
+  destruct (find_col cols (col_sql cols k)) as [b|]; [|discriminate].
+  apply andb_true_iff in H as [Ha Hb]. apply Nat.eqb_eq in Ha. apply Nat.eqb_eq in Hb. subst. split; reflexivity.
+Qed.
+
 Section Refinement.
   Variable wsem : list wtok -> option (list cond).
+  Variable osem : list nat -> list row -> list row.
   Variable cols : list column.
   (* what is assumed of SQLite's reading of the generated where clause *)
   Hypothesis wsem_empty : wsem [] = Some [].
   Hypothesis wsem_where : forall ci o k r cs,
       chain r = Some cs -> wsem (TWhere :: TCond ci o k :: r) = Some ((ci, o, k) :: cs).
+  (* ... and of its ORDER BY: ascending by val_cmp on the listed columns, ties in table order *)
+  Hypothesis osem_sorts : forall ord l, osem ord l = sort_rows ord l.
 
   Lemma wsem_build : forall ms b t a,
     build_where ms 0 b = Some (t, a) -> wsem t = Some (conds_of ms b).
@@ -88,64 +127,152 @@ Section Refinement.
         * cbn [build_where]. reflexivity.
   Qed.
 
-  Lemma step_refines : forall d o, op_wf (List.length cols) o = true ->
-    let '(d', x, _) := step wsem cols d o in (d', x) = spec_step cols d o.
+  Notation flt := (filtered wsem osem cols id).
+
+  Lemma filtered_select s fs : exists q,
+    flt s (List.map (new_filter cols) fs) 0%nat (fun w a => SSelect w a (sord s)) =
+    (s, match resolve cols fs, sdb s with
+        | Some sfs, Some t => RRows (t_read sfs (sord s) t)
+        | _, _ => RErr end, q).
   Proof.
-    intros d o Hwf. destruct o as [| |r|fs|r fs|fs].
-    - destruct d; reflexivity.
-    - destruct d; reflexivity.
-    - destruct d as [t|]; cbn; [|reflexivity].
-      unfold ki. destruct (existsb (key_eqb (key_index cols) r) t); reflexivity.
-    - pose proof (build_resolve fs 0 0) as HB. cbn [step].
-      destruct (resolve cols fs) as [sfs|] eqn:ER.
-      + destruct HB as (t & a & Hb & Hm). rewrite Hb.
-        destruct d as [tb|]; cbn [exec spec_step]; [|rewrite ?ER; reflexivity].
-        rewrite (wsem_build _ _ _ _ Hb), ER.
-        f_equal. f_equal. apply filter_ext. intros r. apply (Hm [] r). reflexivity.
-      + rewrite HB. destruct d; cbn [spec_step]; rewrite ?ER; reflexivity.
-    - cbn [op_wf] in Hwf. apply Nat.eqb_eq in Hwf.
-      pose proof (build_resolve fs 0 (List.length r)) as HB. cbn [step].
-      destruct (resolve cols fs) as [sfs|] eqn:ER.
-      + destruct HB as (t & a & Hb & Hm). rewrite Hb.
-        destruct d as [tb|]; cbn [exec spec_step]; [|rewrite ?ER; reflexivity].
-        rewrite (wsem_build _ _ _ _ Hb), ER.
-        unfold ncols. rewrite <- Hwf, firstn_len_app. unfold ki.
-        assert (HF : forall r0, row_matches (conds_of (List.map (new_filter cols) fs) (List.length r)) (r ++ a) r0 = spec_matches sfs r0)
-          by (intros r0; apply (Hm r r0 eq_refl)).
+    unfold filtered. pose proof (build_resolve fs 0 0) as HB.
+    destruct (resolve cols fs) as [sfs|].
+    - destruct HB as (t & a & Hb & Hm). rewrite Hb. unfold run_stmt.
+      destruct s as [[tb|] k hk od]; cbn [sdb stk shk sord exec].
+      + rewrite (wsem_build _ _ _ _ Hb), osem_sorts. eexists. unfold t_read.
+        rewrite (filter_ext _ (spec_matches sfs)) by (intros r; apply (Hm [] r); reflexivity). reflexivity.
+      + eexists. reflexivity.
+    - rewrite HB. eexists. reflexivity.
+  Qed.
+
+  Lemma filtered_delete s fs : exists q,
+    flt s (List.map (new_filter cols) fs) 0%nat (fun w a => SDelete w a) =
+    (match resolve cols fs, sdb s with
+     | Some sfs, Some t => (mkst (Some (fst (t_delete sfs t))) (stk s) (shk s) (sord s), RCount (N.of_nat (snd (t_delete sfs t))))
+     | _, _ => (s, RErr) end, q).
+  Proof.
+    unfold filtered. pose proof (build_resolve fs 0 0) as HB.
+    destruct (resolve cols fs) as [sfs|].
+    - destruct HB as (t & a & Hb & Hm). rewrite Hb. unfold run_stmt.
+      assert (HF : forall r, row_matches (conds_of (List.map (new_filter cols) fs) 0) a r = spec_matches sfs r)
+        by (intros r; apply (Hm [] r); reflexivity).
+      destruct s as [[tb|] k hk od]; cbn [sdb stk shk sord exec].
+      + rewrite (wsem_build _ _ _ _ Hb). eexists. unfold t_delete. cbn [fst snd].
+        rewrite (filter_ext _ (fun r => negb (spec_matches sfs r))) by (intros r; rewrite HF; reflexivity).
+        rewrite (filter_ext (row_matches _ a) (spec_matches sfs)) by exact HF. reflexivity.
+      + eexists. reflexivity.
+    - rewrite HB. eexists. reflexivity.
+  Qed.
+
+  Lemma filtered_update s fs r : List.length r = List.length cols -> exists q,
+    flt s (List.map (new_filter cols) fs) (List.length r) (fun w a => SUpdate w (r ++ a)) =
+    (match resolve cols fs, sdb s with
+     | Some sfs, Some t => match t_update (stk s) sfs r t with
+                           | Some t' => (mkst (Some t') (stk s) (shk s) (sord s), ROk)
+                           | None => (s, RErr) end
+     | _, _ => (s, RErr) end, q).
+  Proof.
+    intros Hlen. unfold filtered. pose proof (build_resolve fs 0 (List.length r)) as HB.
+    destruct (resolve cols fs) as [sfs|].
+    - destruct HB as (t & a & Hb & Hm). rewrite Hb. unfold run_stmt.
+      assert (HF : forall r0, row_matches (conds_of (List.map (new_filter cols) fs) (List.length r)) (r ++ a) r0 = spec_matches sfs r0)
+        by (intros r0; apply (Hm r r0 eq_refl)).
+      destruct s as [[tb|] k hk od]; cbn [sdb stk shk sord exec].
+      + rewrite (wsem_build _ _ _ _ Hb). unfold ncols. rewrite <- Hlen, firstn_len_app. unfold t_update.
         match goal with |- context [List.map ?f tb] =>
           rewrite (map_ext f (fun r0 => if spec_matches sfs r0 then r else r0))
             by (intros r0; cbv beta; rewrite ?HF; reflexivity) end.
-        destruct (keys_unique (key_index cols) _); reflexivity.
-      + rewrite HB. destruct d; cbn [spec_step]; rewrite ?ER; reflexivity.
-    - pose proof (build_resolve fs 0 0) as HB. cbn [step].
-      destruct (resolve cols fs) as [sfs|] eqn:ER.
-      + destruct HB as (t & a & Hb & Hm). rewrite Hb.
-        destruct d as [tb|]; cbn [exec spec_step]; [|rewrite ?ER; reflexivity].
-        rewrite (wsem_build _ _ _ _ Hb), ER.
-        assert (HF : forall r, row_matches (conds_of (List.map (new_filter cols) fs) 0) a r = spec_matches sfs r)
-          by (intros r; apply (Hm [] r); reflexivity).
-        f_equal; [f_equal|f_equal; f_equal; f_equal]; apply filter_ext; intros r; rewrite HF; reflexivity.
-      + rewrite HB. destruct d; cbn [spec_step]; rewrite ?ER; reflexivity.
+        eexists. destruct (keys_unique k _); reflexivity.
+      + eexists. reflexivity.
+    - rewrite HB. eexists. reflexivity.
   Qed.
 
-  Lemma run_from_refines : forall h d, history_wf cols h = true ->
-    run_from (step wsem cols) d h = spec_from cols d h.
+  Definition hk_ok (s : st) : Prop := match shk s with Some k => (k < List.length cols)%nat | None => True end.
+
+  Lemma step_refines : forall s o, schema_ok cols = true -> op_wf (List.length cols) o = true -> hk_ok s ->
+    let '(s', x, _) := step wsem osem cols s o in (s', x) = spec_step cols s o /\ hk_ok s'.
   Proof.
-    induction h as [|o h IH]; intros d Hwf; [reflexivity|].
+    intros s o Hsch Hwf Hk.
+    pose proof (schema_nonempty _ Hsch) as Hne.
+    destruct o as [| |r|fs|r fs|fs|n|ns|v|r|v|]; cbn [step].
+    - (* create *)
+      unfold do_create, hk_ok in *. destruct s as [[tb|] k hk od]; cbn [sdb stk shk sord spec_step] in *.
+      + split; [reflexivity|]. cbn. destruct hk; [assumption|apply key_index_bound; assumption].
+      + split; [reflexivity|]. cbn. destruct hk; [assumption|apply key_index_bound; assumption].
+    - (* createif *)
+      unfold do_create, hk_ok in *. destruct s as [[tb|] k hk od]; cbn [sdb stk shk sord spec_step] in *.
+      + split; [reflexivity|assumption].
+      + split; [reflexivity|]. cbn. destruct hk; [assumption|apply key_index_bound; assumption].
+    - (* insert *)
+      unfold run_stmt, hk_ok in *. destruct s as [[tb|] k hk od]; cbn [sdb stk shk sord spec_step exec] in *.
+      + destruct (existsb (key_eqb k r) tb); cbn; split; try reflexivity; assumption.
+      + split; [reflexivity|assumption].
+    - (* read *)
+      destruct (filtered_select s fs) as [q Hq]. rewrite Hq. split; [|assumption].
+      cbn [spec_step]. destruct (sdb s); destruct (resolve cols fs); reflexivity.
+    - (* update *)
+      cbn [op_wf] in Hwf. apply Nat.eqb_eq in Hwf.
+      destruct (filtered_update s fs r Hwf) as [q Hq]. rewrite Hq.
+      cbn [spec_step]. destruct (sdb s) as [t|]; destruct (resolve cols fs) as [sfs|]; try (split; [reflexivity|assumption]).
+      destruct (t_update (stk s) sfs r t); (split; [reflexivity|]); unfold hk_ok in *; cbn; assumption.
+    - (* delete *)
+      destruct (filtered_delete s fs) as [q Hq]. rewrite Hq.
+      cbn [spec_step]. destruct (sdb s) as [t|]; destruct (resolve cols fs) as [sfs|]; try (split; [reflexivity|assumption]).
+    - (* set key *)
+      split; [reflexivity|]. unfold hk_ok. cbn. destruct (find_col cols n) eqn:E; [apply find_col_bound in E; assumption|exact I].
+    - (* sort *) split; [reflexivity|]. unfold hk_ok in *. cbn. assumption.
+    - (* read one *)
+      cbn [spec_step]. unfold hk_ok in Hk. destruct (shk s) as [k|] eqn:EK.
+      + destruct (schema_key _ _ Hsch Hk) as [HK1 _].
+        destruct (filtered_select s [FBy (col_name cols k) OpEq v]) as [q Hq].
+        cbn [List.map] in Hq. rewrite Hq. cbn [resolve]. rewrite HK1.
+        split; [|unfold hk_ok; rewrite EK; assumption].
+        destruct (sdb s) as [t|]; [|reflexivity].
+        destruct (t_read [SF k OpEq v] (sord s) t); reflexivity.
+      + destruct (sdb s); (split; [reflexivity|unfold hk_ok; rewrite EK; exact I]).
+    - (* update one *)
+      cbn [op_wf] in Hwf. apply Nat.eqb_eq in Hwf.
+      cbn [spec_step]. unfold hk_ok in Hk. destruct (shk s) as [k|] eqn:EK.
+      + destruct (schema_key _ _ Hsch Hk) as [_ HK2].
+        destruct (nth_error r k) as [v|] eqn:EN.
+        * destruct (filtered_update s [FBy (col_sql cols k) OpEq v] r Hwf) as [q Hq].
+          cbn [List.map] in Hq. rewrite Hq. cbn [resolve]. rewrite HK2.
+          rewrite (nth_error_nth _ _ dflt EN).
+          destruct (sdb s) as [t|]; [|split; [reflexivity|unfold hk_ok; rewrite EK; assumption]].
+          destruct (t_update (stk s) [SF k OpEq v] r t); (split; [rewrite ?EK; reflexivity|unfold hk_ok; cbn; rewrite ?EK; assumption]).
+        * apply nth_error_None in EN. lia.
+      + destruct (sdb s); (split; [reflexivity|unfold hk_ok; rewrite EK; exact I]).
+    - (* delete one *)
+      cbn [spec_step]. unfold hk_ok in Hk. destruct (shk s) as [k|] eqn:EK.
+      + destruct (schema_key _ _ Hsch Hk) as [HK1 _].
+        destruct (filtered_delete s [FBy (col_name cols k) OpEq v]) as [q Hq].
+        cbn [List.map] in Hq. rewrite Hq. cbn [resolve]. rewrite HK1.
+        destruct (sdb s) as [t|]; [|split; [reflexivity|unfold hk_ok; rewrite EK; assumption]].
+        unfold t_delete. cbn [fst snd].
+        split; [|unfold hk_ok; cbn; rewrite EK; assumption].
+        rewrite ?EK. destruct (List.length (filter (spec_matches [SF k OpEq v]) t)); reflexivity.
+      + destruct (sdb s); (split; [reflexivity|unfold hk_ok; rewrite EK; exact I]).
+    - (* reopen *) split; [reflexivity|]. unfold hk_ok. cbn. exact I.
+  Qed.
+
+  Lemma run_from_refines : forall h s, schema_ok cols = true -> history_wf cols h = true -> hk_ok s ->
+    run_from (step wsem osem cols) s h = spec_from cols s h.
+  Proof.
+    induction h as [|o h IH]; intros s Hsch Hwf Hk; [reflexivity|].
     cbn [history_wf forallb] in Hwf. apply andb_true_iff in Hwf as [Ho Hh].
     cbn [run_from spec_from].
-    pose proof (step_refines d o Ho) as HS.
-    destruct (step wsem cols d o) as [[d' x] ss]. rewrite <- HS.
-    rewrite (IH d' Hh). reflexivity.
+    pose proof (step_refines s o Hsch Ho Hk) as HS.
+    destruct (step wsem osem cols s o) as [[s' x] ss]. destruct HS as [HS Hk']. rewrite <- HS.
+    rewrite (IH s' Hsch Hh Hk'). reflexivity.
   Qed.
 
-  Lemma refines_table : forall h, history_wf cols h = true ->
-    results (run wsem cols h) = results (spec_run cols h).
-  Proof. intros h Hwf. unfold run, spec_run. rewrite run_from_refines by assumption. reflexivity. Qed.
+  Lemma refines_table : forall h, schema_ok cols = true -> history_wf cols h = true ->
+    results (run wsem osem cols h) = results (spec_run cols h).
+  Proof. intros h Hs Hwf. unfold run, spec_run. rewrite run_from_refines by (try assumption; exact I). reflexivity. Qed.
 
-  Lemma refines_table_state : forall h, history_wf cols h = true ->
-    run wsem cols h = spec_run cols h.
-  Proof. intros h Hwf. unfold run, spec_run. apply run_from_refines; assumption. Qed.
+  Lemma refines_table_state : forall h, schema_ok cols = true -> history_wf cols h = true ->
+    run wsem osem cols h = spec_run cols h.
+  Proof. intros h Hs Hwf. unfold run, spec_run. apply run_from_refines; try assumption. exact I. Qed.
 End Refinement.
 
 (* ---- the pinned code (before 1e0c750d) does not refine the table *)
@@ -163,11 +290,11 @@ Definition witness_nilfirst : list op :=
 
 Lemma old_refuted_badcol :
   history_wf demo_cols witness_badcol = true /\
-  results (run_old wsem_ref demo_cols witness_badcol) <> results (spec_run demo_cols witness_badcol).
+  results (run_old wsem_ref osem_ref demo_cols witness_badcol) <> results (spec_run demo_cols witness_badcol).
 Proof. split; [vm_compute; reflexivity|]. vm_compute. intros H. discriminate H. Qed.
 
 Lemma old_refuted_nilfirst :
   history_wf demo_cols witness_nilfirst = true /\
   forallb (op_valid demo_cols) witness_nilfirst = true /\
-  results (run_old wsem_ref demo_cols witness_nilfirst) <> results (spec_run demo_cols witness_nilfirst).
+  results (run_old wsem_ref osem_ref demo_cols witness_nilfirst) <> results (spec_run demo_cols witness_nilfirst).
 Proof. split; [vm_compute; reflexivity|]. split; [vm_compute; reflexivity|]. vm_compute. intros H. discriminate H. Qed.
